@@ -812,4 +812,224 @@ theorem find_after_idx_cut (init : Dir) (cur : File) (k b e : Nat) (res : Bytes)
       simp [cutI]
   · rfl
 
+/-! ### file names: strictly increasing in the comparator order (date, then roll number) -/
+
+/-- `filenameComparator` on `(day, roll number)`: date first, then the number (shorter-then-lexicographic
+    on decimal numerals without leading zeros is the numeric order) -/
+def nameLt (a b : Name) : Prop := a.1 < b.1 ∨ (a.1 = b.1 ∧ a.2 < b.2)
+
+def fileLt (f g : File) : Prop := nameLt f.name g.name
+
+/-- names strictly increasing along the listing, no file of a day after second `L`'s day -/
+def NameInv (w : Writer) (L : Nat) : Prop :=
+  w.files.Pairwise fileLt ∧ ∀ f ∈ w.files, f.name.1 ≤ dayOf L
+
+theorem dayOf_mono {a b : Nat} (h : a ≤ b) : dayOf a ≤ dayOf b := Nat.div_le_div_right h
+
+theorem modLast_map_name (fs : Dir) (g : File → File) (hg : ∀ f, (g f).name = f.name) :
+    (modLast fs g).map (·.name) = fs.map (·.name) := by
+  induction fs with
+  | nil => rfl
+  | cons x r ih =>
+    cases r with
+    | nil => simp [modLast, hg]
+    | cons y r => simp only [modLast, List.map_cons] at ih ⊢; rw [ih]
+
+theorem nameInv_of_names {w w' : Writer} {L : Nat} (hn : w'.files.map (·.name) = w.files.map (·.name))
+    (h : NameInv w L) : NameInv w' L := by
+  have h1 : (w.files.map (·.name)).Pairwise nameLt := by
+    rw [List.pairwise_map]; exact h.1
+  have h2 : ∀ n ∈ w.files.map (·.name), n.1 ≤ dayOf L := by
+    intro n hn'; obtain ⟨f, hf, rfl⟩ := List.mem_map.1 hn'; exact h.2 f hf
+  rw [← hn] at h1 h2
+  refine ⟨by rw [List.pairwise_map] at h1; exact h1, fun f hf => h2 _ (List.mem_map.2 ⟨f, hf, rfl⟩)⟩
+
+theorem nameInv_mono {w : Writer} {L L' : Nat} (h : NameInv w L) (hL : L ≤ L') : NameInv w L' :=
+  ⟨h.1, fun f hf => (h.2 f hf).trans (dayOf_mono hL)⟩
+
+theorem nameInv_addIndex {w : Writer} {L : Nat} (s : Nat) (h : NameInv w L) : NameInv (w.addIndex s) L :=
+  nameInv_of_names (modLast_map_name _ _ (fun _ => rfl)) h
+
+theorem nameInv_append {w : Writer} {L : Nat} (items : List Item) (h : NameInv w L) : NameInv (w.append items) L :=
+  nameInv_of_names (modLast_map_name _ _ (fun _ => rfl)) h
+
+theorem last_is_max {α : Type} (R : α → α → Prop) (l : List α) (x : α) (hp : l.Pairwise R) (hl : l.getLast? = some x) :
+    ∀ y ∈ l, y = x ∨ R y x := by
+  obtain ⟨ys, rfl⟩ := List.getLast?_eq_some_iff.1 hl
+  intro y hy
+  rcases List.mem_append.1 hy with hy | hy
+  · exact Or.inr ((List.pairwise_append.1 hp).2.2 y hy x (by simp))
+  · simp only [List.mem_singleton] at hy; exact Or.inl hy
+
+/-- the name chosen by `nextFileNameOfTime` is greater than every existing name -/
+theorem nextName_gt (fs : Dir) (ts : Nat) (hp : fs.Pairwise fileLt) (hd : ∀ f ∈ fs, f.name.1 ≤ dayOf (ts / 1000)) :
+    ∀ f ∈ fs, nameLt f.name (nextName fs ts) ∧ (nextName fs ts).1 = dayOf (ts / 1000) := by
+  intro f hf
+  have hday : (nextName fs ts).1 = dayOf (ts / 1000) := by
+    unfold nextName; dsimp only; split <;> rfl
+  refine ⟨?_, hday⟩
+  rcases Nat.lt_or_ge f.name.1 (dayOf (ts / 1000)) with hlt | hge
+  · exact Or.inl (by rw [hday]; exact hlt)
+  · have heq : f.name.1 = dayOf (ts / 1000) := le_antisymm (hd f hf) hge
+    have hfF : f ∈ fs.filter (fun g => g.name.1 == dayOf (ts / 1000)) := by
+      rw [List.mem_filter]; exact ⟨hf, by simp [heq]⟩
+    unfold nextName
+    dsimp only
+    cases hl : (fs.filter fun g => g.name.1 == dayOf (ts / 1000)).getLast? with
+    | none =>
+      rw [List.getLast?_eq_none_iff] at hl
+      rw [hl] at hfF; simp at hfF
+    | some g =>
+      simp only
+      have hpF := hp.sublist (List.filter_sublist (l := fs) (p := fun g => g.name.1 == dayOf (ts / 1000)))
+      have hg : g ∈ fs.filter (fun g => g.name.1 == dayOf (ts / 1000)) := List.mem_of_getLast? hl
+      have hgd : g.name.1 = dayOf (ts / 1000) := by
+        have := (List.mem_filter.1 hg).2; simpa using this
+      refine Or.inr ⟨heq, ?_⟩
+      rcases last_is_max fileLt _ g hpF hl f hfF with rfl | hlt
+      · exact Nat.lt_succ_self _
+      · rcases hlt with h1 | ⟨_, h2⟩
+        · omega
+        · exact Nat.lt_succ_of_lt h2
+
+theorem nameInv_roll {w : Writer} {L : Nat} (ts : Nat) (h : NameInv w L) (hL : L ≤ ts / 1000) :
+    NameInv (w.roll ts) (ts / 1000) := by
+  have hgt := nextName_gt w.files ts h.1 (fun f hf => (h.2 f hf).trans (dayOf_mono hL))
+  unfold NameInv Writer.roll
+  dsimp only
+  constructor
+  · rw [List.pairwise_append]
+    refine ⟨h.1.sublist (List.drop_sublist _ _), List.pairwise_singleton _ _, ?_⟩
+    intro a ha b hb
+    simp only [List.mem_singleton] at hb
+    subst hb
+    exact (hgt a (List.mem_of_mem_drop ha)).1
+  · intro f hf
+    rcases List.mem_append.1 hf with hf | hf
+    · exact (h.2 f (List.mem_of_mem_drop hf)).trans (dayOf_mono hL)
+    · simp only [List.mem_singleton] at hf
+      subst hf
+      show (nextName w.files ts).1 ≤ _
+      have hday : (nextName w.files ts).1 = dayOf (ts / 1000) := by
+        unfold nextName; dsimp only; split <;> rfl
+      rw [hday]
+
+theorem nameInv_rollIf {w : Writer} {L : Nat} (c : Bool) (ts : Nat) (h : NameInv w L) (hL : L ≤ ts / 1000) :
+    NameInv (w.rollIf c ts) (ts / 1000) := by
+  unfold Writer.rollIf; split_ifs; exact nameInv_roll ts h hL; exact nameInv_mono h hL
+
+theorem nameInv_write (w : Writer) (ts : Nat) (items : List Item) (h : NameInv w w.latestOpSec) :
+    NameInv (w.write ts items) (w.write ts items).latestOpSec := by
+  unfold Writer.write
+  dsimp only
+  split_ifs with h1 h2
+  · exact h
+  · refine nameInv_mono (L := ts / 1000) ?_ (le_max_right _ _)
+    exact nameInv_rollIf _ _ (nameInv_append _ (nameInv_rollIf _ _ (nameInv_addIndex _ h) (by omega))) (le_refl _)
+  · refine nameInv_mono (L := ts / 1000) ?_ (le_max_right _ _)
+    exact nameInv_rollIf _ _ (nameInv_append _ h) (by omega)
+
+theorem nameInv_reopen (w : Writer) (now ms mf : Nat) (h : NameInv w w.latestOpSec) (hL : w.latestOpSec ≤ now / 1000) :
+    NameInv (w.reopen now ms mf) (w.reopen now ms mf).latestOpSec := by
+  have h' : NameInv ({ files := w.files, latestOpSec := 0, maxSize := ms, maxFiles := mf, createdSec := now / 1000 } : Writer)
+      w.latestOpSec := h
+  exact nameInv_roll now h' hL
+
+theorem nameInv_new (now a b : Nat) : NameInv (Writer.new now a b) (Writer.new now a b).latestOpSec := by
+  have h' : NameInv ({ files := [], latestOpSec := 0, maxSize := a, maxFiles := b, createdSec := now / 1000 } : Writer) 0 :=
+    ⟨List.Pairwise.nil, by simp⟩
+  exact nameInv_roll now h' (Nat.zero_le _)
+
+theorem nameInv_runEvents (w : Writer) (evs : List Ev) (hok : EvsOK w evs) (h : NameInv w w.latestOpSec) :
+    NameInv (runEvents w evs) (runEvents w evs).latestOpSec := by
+  induction evs generalizing w with
+  | nil => exact h
+  | cons ev r ih =>
+    cases ev with
+    | write ts items => exact ih (w.write ts items) hok.2.2 (nameInv_write w ts items h)
+    | reopen now ms mf => exact ih (w.reopen now ms mf) hok.2.2 (nameInv_reopen w now ms mf h hok.1)
+
+/-- the comparator as a Boolean `≤` (for `List.mergeSort`) -/
+def nameLeB (a b : Name) : Bool := decide (a.1 < b.1) || (decide (a.1 = b.1) && decide (a.2 ≤ b.2))
+
+theorem nameLeB_of_lt {a b : Name} (h : nameLt a b) : nameLeB a b = true := by
+  unfold nameLeB
+  rcases h with h | ⟨h1, h2⟩
+  · simp [h]
+  · simp [h1, Nat.le_of_lt h2]
+
+/-! ### the line limit: beyond `maxLines` lines only the second of the previous line is continued -/
+
+/-- `LimitRule m n last xs`: in `xs` (whose first element is line number `n`, preceded by a line of second
+    `last`) every line with number `≥ m` has the second of the line before it -/
+def LimitRule (m : Nat) : Nat → Nat → List Item → Prop
+  | _, _, [] => True
+  | n, last, it :: r => (m ≤ n → it.ts / 1000 = last) ∧ LimitRule m (n + 1) (it.ts / 1000) r
+
+def lastSecOr (last : Nat) (a : List Item) : Nat :=
+  match a.getLast? with
+  | some it => it.ts / 1000
+  | none => last
+
+theorem scanFrom_rule (m : Nat) (l : List Item) (last n : Nat) : LimitRule m n last (scanFrom m l last n).1 := by
+  induction l generalizing last n with
+  | nil => simp [scanFrom, LimitRule]
+  | cons it r ih =>
+    unfold scanFrom
+    split_ifs with h
+    · trivial
+    · refine ⟨fun hm => ?_, ih _ _⟩
+      by_contra hne
+      exact h ⟨hm, hne⟩
+
+theorem limitRule_append (m : Nat) (a b : List Item) (n last : Nat) (ha : LimitRule m n last a)
+    (hb : LimitRule m (n + a.length) (lastSecOr last a) b) : LimitRule m n last (a ++ b) := by
+  induction a generalizing n last with
+  | nil => simpa [lastSecOr] using hb
+  | cons x r ih =>
+    refine ⟨ha.1, ih (n + 1) (x.ts / 1000) ha.2 ?_⟩
+    have e1 : n + 1 + r.length = n + (x :: r).length := by simp; omega
+    have e2 : lastSecOr (x.ts / 1000) r = lastSecOr last (x :: r) := by
+      unfold lastSecOr
+      cases r with
+      | nil => simp
+      | cons y r' =>
+        rw [List.getLast?_cons_cons]
+        cases h : (y :: r').getLast? with
+        | none => simp [List.getLast?_eq_none_iff] at h
+        | some z => rfl
+    rw [e1, e2]; exact hb
+
+theorem readFromRest_rule (m : Nat) (r : List (List Item)) (acc : List Item) (h : LimitRule m 0 0 acc) :
+    LimitRule m 0 0 (readFromRest m r acc) := by
+  induction r generalizing acc with
+  | nil => simpa [readFromRest] using h
+  | cons its r ih =>
+    unfold readFromRest
+    split_ifs with hl
+    · exact h
+    · have hx := scanFrom_rule m its (latestSecond acc) acc.length
+      have hacc : LimitRule m 0 0 (acc ++ (scanFrom m its (latestSecond acc) acc.length).1) :=
+        limitRule_append m acc _ 0 0 h (by
+          have e : lastSecOr 0 acc = latestSecond acc := rfl
+          rw [e, Nat.zero_add]; exact hx)
+      rcases hsc : scanFrom m its (latestSecond acc) acc.length with ⟨xs, c⟩
+      rw [hsc] at hacc
+      cases c with
+      | true => exact ih _ hacc
+      | false => exact hacc
+
+theorem readFromItems_rule (m : Nat) (L : List (List Item)) : LimitRule m 0 0 (readFromItems m L) := by
+  cases L with
+  | nil => trivial
+  | cons its r =>
+    have hx := scanFrom_rule m its 0 0
+    have e : readFromItems m (its :: r)
+        = if (scanFrom m its 0 0).2 = true then readFromRest m r (scanFrom m its 0 0).1 else (scanFrom m its 0 0).1 := by
+      simp only [readFromItems]
+    rw [e]
+    split_ifs
+    · exact readFromRest_rule m r _ hx
+    · exact hx
+
 end Sentinel.MetricLog
